@@ -15,6 +15,11 @@ def cases(tier):
         cfg = {'scenario': 'adversarial', 'n': n, 'x': x,
                'members': [{'m': m, 'cap': cap, 'rounds': ilog2(n * m), 'promises': ['sym'] * m, 'free_gens': True, 'ctx_elem': True}], 'actions': ['VerifyOnly']}
         out.append({'cfg': cfg, 'kind': 'verifier', 'name': 'verifier n%d m%d c%d x%d' % (n, m, cap, x)})
+        if m >= 2:
+            for pat in (0, 1):
+                cfg2 = {'scenario': 'adversarial', 'n': n, 'x': x, 'actions': ['VerifyOnly'],
+                        'members': [{'m': m, 'cap': cap, 'rounds': ilog2(n * m), 'promises': [('sym' if j % 2 == pat else None) for j in range(m)], 'free_gens': True, 'ctx_elem': True}]}
+                out.append({'cfg': cfg2, 'kind': 'verifier', 'name': 'verifier n%d m%d c%d x%d promises at %s positions' % (n, m, cap, x, 'even' if pat == 0 else 'odd')})
     for (n, m, cap, x) in cfgs[:3] if tier == 'quick' else cfgs[:6]:
         cfg = {'scenario': 'batch', 'n': n, 'x': x, 'members': [{'m': m, 'cap': cap, 'promises': ['sym' if j % 2 == 0 else None for j in range(m)], 'seeded': m == 1}], 'actions': ['VerifyOnly']}
         out.append({'cfg': cfg, 'kind': 'prover', 'name': 'prover/verifier agreement n%d m%d c%d x%d' % (n, m, cap, x)})
@@ -92,7 +97,16 @@ def analyse(ctx, case, run, S):
         ok = e is not None and e['len'] == 8 and e['pieces'] == [{'lit': int(val).to_bytes(8, 'little').hex()}]
         ctx.expect(ok, 'C04:%s-not-bound' % what.split(' ')[0], '%s: the %s is not absorbed as LE64(%d) under label %s' % (case['name'], what, val, label), cfg, 'challenges_unchanged',
                    {'n': n, 'x': x, 'm': m, 'cap': mc['cap'], 'datum': what, 'rounds': rounds})
-    # a None promise is absorbed as the value 0 (None == Some(0) and nothing else)
+    # one promise entry per commitment, in order; a None promise is absorbed as the value 0 (None == Some(0) and nothing else)
+    pe = [e for _, e in ap if e['label'] == 'vi - minimum_value']
+    okp = len(pe) == m
+    for j, p in enumerate(info['promises']):
+        if not okp:
+            break
+        want = ('u64var', 'p_0_%d' % j) if p.get('p_sym') else ('lit', int(p['p'] or 0).to_bytes(8, 'little').hex())
+        okp = okp and len(pe[j]['pieces']) == 1 and lv.piece_desc(pe[j]['pieces'][0]) == want
+    ctx.expect(okp, 'C04:promise-position-not-bound', '%s: the transcript does not hold one promise entry per commitment in order (absent = 0): positions are not bound' % case['name'],
+               cfg, 'challenges_unchanged', {'n': n, 'x': x, 'm': m, 'cap': mc['cap'], 'datum': 'promise-position', 'rounds': rounds})
     if len(ctx.case_samples) < 2:
         ctx.case_samples.append({'scenario': cfg, 'log_of_final_challenge': [str(t)[:120] for t in lv.describe(ids['e'])][:40]})
 
